@@ -224,3 +224,26 @@ def run(chk):
     pk = it.watch_results["ecdsa:Private_key.__init__"]
     oks = bool(pk) and all(term_of(c[2][-1]) == ("param", "secexp") for c in pk)
     chk.ob("R03.4", "from_secret_exponent: the same secexp is stored in Private_key", oks, loc=q, key="C03|R03.4|stored", detail="Private_key receives something other than secexp")
+
+    # the stored verifying key is always the one derived in place: every store of <key>.verifying_key
+    # is the direct result of VerifyingKey.from_public_point(...), never a value handed in or read elsewhere
+    import ast as _ast
+    from sa.model import norm_text as _nt
+    from sa import pat as _pat
+    nst = 0
+    for fq in sorted({w_[0] for w_ in W.lite.field_writers.get("verifying_key", ())}):
+        fn_ = W.p.func(fq)
+        D_ = _pat.defs_of(fn_.node)
+        for n_ in _ast.walk(fn_.node):
+            if isinstance(n_, _ast.Assign) and any(isinstance(t_, _ast.Attribute) and t_.attr == "verifying_key" for t_ in n_.targets):
+                nst += 1
+                v_ = n_.value
+                if isinstance(v_, _ast.Name) and v_.id in D_:
+                    v_ = D_[v_.id]
+                if fn_.node.name == "__init__" and isinstance(v_, _ast.Constant) and v_.value is None:
+                    nst -= 1
+                    continue           # the placeholder of the guarded constructor
+                okst = isinstance(v_, _ast.Call) and _nt(v_.func).endswith("from_public_point")
+                chk.ob("R03.4", "%s: verifying_key <- VerifyingKey.from_public_point(...)" % fn_.qual, okst, loc="src/ecdsa/keys.py:%d" % n_.lineno, key="C03|R03.4|vk-store|%s" % fn_.qual,
+                       detail="%s stores `%s` as the verifying key: it is not (only) the key derived from generator * secexp in place" % (fn_.qual, _nt(n_.value)))
+    chk.floor("R03.4", "stores of the verifying_key field", nst, 1)
